@@ -1,7 +1,7 @@
 """C04, program level: "converge to 1 ... then stay constant, INDEPENDENT OF THE INITIAL DISTRIBUTION" on the inovesa binary.
 
 One configuration without impedance (`-G 0`, no impedance file, damping and diffusion on) is run from several starts,
-`--InitialDistZoom` 0.2 ... 1.5, for >= 10 damping times, one record per synchrotron period.  The narrow starts matter: a
+`--InitialDistZoom` 0.2 ... 1.5, for >= 15/e1 steps (e1 the damping decrement per step; >= 40 synchrotron periods), one record per period.  The narrow starts matter: a
 Gaussian of zoom <= 0.3 on a +-6 sigma grid underflows to exactly 0 in single precision beyond ~14.3*zoom sigma, i.e. INSIDE
 the region the relaxed bunch occupies, so anything in the step that remembers the start (a cached profile of the initial
 distribution, a support mask, a stale normalisation ...) shows up as a limit that depends on the start (seed C04-G: columns
@@ -27,6 +27,9 @@ FIX_TOL = 5e-4
 def group(n, N, it, P, der, T, e1t, zooms, cur=(1e-3,), note=""):
     delta = P / (n - 1.0)
     e1t = min(e1t, 0.4 * delta * delta)           # inside the explicit scheme's stable range (C04_fp3_stable_range)
+    # the deviation from the fixed point contracts by about (1 - e1) per step (C04_contraction_factor_on_domain: rho <= 1 - 4 e1/5):
+    # run for >= 15 e-folds so that what is left of a start 25 times too narrow is below 1e-5
+    T = max(T, int(math.ceil(15.0 / (e1t * N))))
     td = 2.0 / (FS * e1t * N)
     opts = ["-s", str(n), "-I"] + [repr(c) for c in cur] + ["-G", "0", "-d", repr(td), "-f", str(FS), "-N", str(N), "-T", str(T), "-n", str(N),
             "--LinearRF", "1", "--InterpolationPoints", str(it), "-P", str(P), "--FPType", "3", "--derivation", str(der), "--StepsPerRevolution", "0"]
@@ -82,7 +85,7 @@ def run_group(ctx, tg, work, g, sigbase):
                                   observed=tail[-3:], sig=dict(sigbase, clause="finite", what=name))
                     return False
                 if max(tail) - min(tail) > STATIONARY_TOL:
-                    ctx.violation("impl-oracle", "bunch %d: %s does not stay constant after %d synchrotron periods (>= 10 damping times) from InitialDistZoom %s"
+                    ctx.violation("impl-oracle", "bunch %d: %s does not stay constant after %d synchrotron periods (>= 15/e1 steps) from InitialDistZoom %s"
                                   % (b, name, g["periods"], z), case=case, observed=tail[-4:], expected="variation < %g over the last quarter" % STATIONARY_TOL,
                                   sig=dict(sigbase, clause="limit-stationary", what=name))
                     ok = False
